@@ -22,7 +22,12 @@ class C14(object):
             "marginal residual, agreement with the model's IPF fixed point (200 sweeps, Float), entropy >= H(d), >= the "
             "IPF entropy and >= the entropy of (own marginal on the constrained variables) x uniform on the "
             "unconstrained ones, closed form for singleton families (product of listed marginals x uniform on the "
-            "rest); marginal_maxent_dists: chain length n+1, uniform first, d last, non-increasing entropies. "
+            "rest); the same with an initial vector x0= (source / uniform / point mass / interior point; x0 unchanged "
+            "afterwards), on sources over a declared sample space (list / SampleSpace of members beyond the support, which "
+            "the optimiser expands to the union alphabet, or a wider Cartesian product; by index or by name; a named source "
+            "gives a result with the same names), and with a variable group requested twice or "
+            "after a larger group containing it; marginal_maxent_dists: chain length n+1, uniform first, d last, "
+            "non-increasing entropies. "
             "Non-trivial = >= 3 variables or overlapping constraints")
     tolerances = {'marginal residual': '2e-4 (SLSQP ftol 1e-7; construct_dist clips entries below 1e-6)',
                   'agreement with IPF': '2e-3 per probability', 'entropy dominance': '1e-4'}
@@ -84,6 +89,11 @@ class C14(object):
             c = self.gen_free(rng, tier)
             if c is not None:
                 yield c
+        # argument shapes and representations the streams above never produce (drawn after them, which are unchanged):
+        # an initial condition x0=, sources over a declared sample space (a list / SampleSpace of members, or a
+        # Cartesian product wider than the support), families that ask for the same variable group twice
+        for c in self.gen_paths(rng, tier):
+            yield c
 
     @staticmethod
     def exact_marginal(case, i):
@@ -142,6 +152,150 @@ class C14(object):
                   'k_max': None, 'dense_out': rng.random() < 0.3})
         return c
 
+    @staticmethod
+    def alph_of(case):
+        """Per-variable alphabets (sorted ranks) of the source: those of its declared sample space when it has one
+        (members or factors may carry symbols no specified outcome uses), else of the specified outcomes."""
+        sp = case.get('space')
+        if sp is None:
+            return [sorted(set(o[i] for o in case['outs'])) for i in range(case['n'])]
+        if sp[0] == 'cart':
+            return [sorted(a) for a in sp[1]]
+        return [sorted(set(o[i] for o in sp[1])) for i in range(case['n'])]
+
+    def prepared_alph(self, case):
+        """Alphabets of the table the optimiser works on: a source over a Cartesian product keeps its alphabets; any
+        other sample space is expanded to the product of the union of the alphabets (prepare_dist)."""
+        alph = self.alph_of(case)
+        sp = case.get('space')
+        if sp is not None and sp[0] != 'cart':
+            union = sorted(set().union(*map(set, alph)))
+            return [list(union) for _ in alph]
+        return alph
+
+    def free_cells(self, case, groups):
+        """How many cells of the optimiser's table no zero of a requested marginal fixes (an upper bound on the
+        dimension of the optimisation, which decides its cost)."""
+        src = {}
+        for o, p in zip(case['outs'], case['pmf']):
+            if Fraction(p) > 0:
+                src[tuple(o)] = Fraction(p)
+        pos = [set(tuple(o[i] for i in g) for o in src) for g in groups]
+        cnt = 0
+        for cell in itertools.product(*self.prepared_alph(case)):
+            if all(tuple(cell[i] for i in g) in ps for g, ps in zip(groups, pos)):
+                cnt += 1
+        return cnt
+
+    def base_case(self, rng, n, amax, homog=None):
+        for _ in range(60):
+            c = gen.rand_dist_case(rng, nmin=n, nmax=n, amax=amax, bases=['linear', 2], max_support=10,
+                                   klasses=('str', 'tuple'), allow_space=False)
+            if homog is not None and (len(set(map(tuple, c['alphabets']))) == 1) != homog:
+                continue
+            break
+        if c['names']:
+            c['names'] = list('XYZW')[:n]
+        gen.avoid_subnull(c)
+        if any(0 < Fraction(p) < Fraction(1, 1000) for p in c['pmf']):
+            pv, _ = gen.rand_prob_vector(rng, len(c['outs']), 'small')
+            c['pmf'] = [str(p) for p in pv]
+        return c
+
+    @staticmethod
+    def family(rng, n, fam):
+        if fam == 'singletons':
+            return [[i] for i in range(n)]
+        if fam == 'pairs':
+            return [list(s) for s in itertools.combinations(range(n), 2)]
+        if fam == 'chain':
+            return [[i, i + 1] for i in range(n - 1)]
+        if fam == 'full':
+            return [list(range(n))] + ([[0]] if rng.random() < 0.5 else [])
+        if fam == 'nested':
+            return [[0], [0, 1]] + ([[2]] if n > 2 else [])
+        if fam == 'again':
+            # the same group asked for twice, or a group asked for after a larger one that contains it and is not an
+            # initial segment of the variables (the parameter arrays of its members are then already in the
+            # optimiser's cache)
+            big = rng.choice([list(p_) for p_ in itertools.combinations(range(n), 2) if p_ != (0, 1)]) if n > 2 else [0, 1]
+            shape = rng.choice(['twice', 'sub-after', 'sub-after', 'both']) if n > 2 else 'twice'
+            rest = [[i] for i in range(n) if i not in big]
+            if shape == 'twice':
+                g = rng.choice([[rng.randrange(n)], big])
+                groups = [list(g)] + rest + [list(g)]
+                groups += [[i] for i in big if len(g) == 1 and i not in g]
+            elif shape == 'sub-after':
+                groups = [list(big)] + rest + [[rng.choice(big)]]
+            else:
+                groups = [list(big), [big[1]]] + rest + [[big[0]], [big[1]], list(big)]
+            return groups
+        return [sorted(rng.sample(range(n), rng.randint(1, n - 1))) for _ in range(rng.randint(1, 3))] if n > 1 else [[0]]
+
+    def gen_paths(self, rng, tier):
+        quick = tier == 'quick'
+        want = {'x0': 10 if quick else 120, 'space': 14 if quick else 160, 'again': 6 if quick else 60}
+        for what in ('x0', 'space', 'again'):
+            made = 0
+            for _ in range(want[what] * 30):
+                if made >= want[what]:
+                    break
+                n = rng.choice([2, 3, 3, 3, 4])
+                c = self.base_case(rng, n, 2 if n == 4 else 3, homog=True if what == 'again' and rng.random() < 0.8 else None)
+                kind = 'maxent'
+                if what == 'space' or rng.random() < (0.5 if what == 'again' else 0.25):
+                    # a declared sample space: members beyond the support (list / SampleSpace: not a Cartesian product,
+                    # the optimiser expands it), or a Cartesian product with a symbol no outcome uses
+                    sk = rng.choice(['list', 'ss', 'ss', 'cart'])
+                    full = [list(o) for o in itertools.product(*c['alphabets'])]
+                    if sk == 'cart':
+                        c['space'] = ['cart', [sorted(set(a) | set(rng.sample(range(6), rng.randint(0, 1)))) for a in c['alphabets']]]
+                    else:
+                        extra = [o for o in full if o not in c['outs']]
+                        rng.shuffle(extra)
+                        members = c['outs'] + extra[:rng.randint(0, len(extra))]
+                        rng.shuffle(members)
+                        c['space'] = [sk, members]
+                    c['spacekind'] = sk
+                    if what == 'space' and rng.random() < 0.25:
+                        kind = 'chain'
+                fam = 'again' if what == 'again' else rng.choice(['singletons', 'pairs', 'chain', 'full', 'random', 'nested', 'again'])
+                groups = self.family(rng, n, fam)
+                alph, palph = self.alph_of(c), self.prepared_alph(c)
+                if what == 'again' and len(set(map(tuple, palph))) > 1 and rng.random() < 0.85:
+                    continue        # the cache of parameter arrays exists for tables with one alphabet for all variables
+                covered = set(i for g in groups for i in g)
+                if kind == 'maxent' and len(covered) < n and alph != palph:
+                    # a variable without a constraint on a source that is expanded to the union alphabet: which
+                    # alphabet "uniform" refers to is not fixed by the statement -> constrain the remaining variables too
+                    groups = groups + [[i] for i in range(n) if i not in covered]
+                    fam = fam + '+rest'
+                cells = 1
+                for a in palph:
+                    cells *= len(a)
+                if cells > 1300:
+                    continue
+                fc = self.free_cells(c, groups if kind == 'maxent' else [[i] for i in range(n)])
+                if fc > 18 and (quick or fc > 27 or rng.random() < 0.8):
+                    continue        # the optimiser's cost grows quickly with the number of free cells
+                obs_cells = 1       # the table of the sibling a `pre` history optimises first (all of it is free)
+                for i in range(n):
+                    obs_cells *= len(set(o[i] for o in c['outs']))
+                c.update({'kind': kind, 'groups': groups, 'fam': fam, 'path': what,
+                          # constraints by name on a list / SampleSpace sample space used to raise (the expanded copy lost the
+                          # variable names); repaired in dit, generated and judged like the rest
+                          'byname': bool(c['names']) and rng.random() < 0.5,
+                          'pre': rng.choice([None, None, 'zeros', 'full']) if c.get('space') is None and obs_cells <= 18 else None,
+                          'k_max': rng.choice([None, None] + list(range(0, n + 1))),
+                          'dense_out': rng.random() < 0.25})
+                if what == 'x0' and kind == 'maxent':
+                    c['x0'] = rng.choice(['source', 'source', 'uniform', 'vertex', 'mix', 'mix'])
+                    c['x0_seed'] = rng.randrange(10 ** 6)
+                    if fc == 0 or any(len(g) == n for g in groups):
+                        continue        # nothing left to optimise: the initial condition is never looked at
+                made += 1
+                yield c
+
     def shrink(self, case):
         return []
 
@@ -150,6 +304,10 @@ class C14(object):
         r.site = 'maxent_dist' if case['kind'] == 'maxent' else 'marginal_maxent_dists'
         r.features = ['kind=%s' % case['kind'], 'n=%d' % case['n'], 'fam=%s' % case['fam'], 'base=%s' % case['base'],
                       'byname=%s' % case['byname'], 'sparse=%s' % case['sparse']]
+        if case.get('space') is not None:
+            r.features.append('space=%s' % case['space'][0])
+        if case.get('path'):
+            r.features.append('path=%s' % case['path'])
         try:
             (self.run_maxent if case['kind'] == 'maxent' else self.run_chain)(case, drv, r)
         except core.DriverError:
@@ -173,9 +331,27 @@ class C14(object):
         return -sum(p * math.log2(p) for p in tab.values() if p > 0)
 
     def space_of(self, case):
-        alph = [sorted(set(o[i] for o in case['outs'])) for i in range(case['n'])]
+        alph = self.alph_of(case)
         union = sorted(set().union(*map(set, alph)))
         return [list(o) for o in itertools.product(*alph)], [list(o) for o in itertools.product(*([union] * case['n']))]
+
+    def initial_vector(self, case):
+        import random
+        cells = [tuple(o) for o in itertools.product(*self.prepared_alph(case))]
+        src = {tuple(o): Fraction(p) for o, p in zip(case['outs'], case['pmf'])}
+        kind = case['x0']
+        if kind == 'source':
+            v = [src.get(o, Fraction(0)) for o in cells]
+        elif kind == 'uniform':
+            v = [Fraction(1, len(cells))] * len(cells)
+        elif kind == 'vertex':
+            top = max(src, key=lambda o: (src[o], o))
+            v = [Fraction(int(o == top)) for o in cells]
+        else:
+            rnd = random.Random(case.get('x0_seed', 0))
+            w = [rnd.randint(1, 9) for _ in cells]
+            v = [Fraction(x, sum(w)) for x in w]
+        return np.array([float(x) for x in v])
 
     def run_maxent(self, case, drv, r):
         dit = import_dit()
@@ -210,9 +386,27 @@ class C14(object):
         if case.get('dense_out'):
             kw['sparse'] = False
             r.features.append('dense_out')
+        x0 = x0_before = None
+        if case.get('x0'):
+            # an initial condition for the optimiser: a full probability vector over the cells of the table it works on
+            # (the source itself, the uniform table, a point mass on a cell of the support, a random interior point).
+            # The statement does not depend on it: the result is judged exactly as without it.
+            x0 = self.initial_vector(case)
+            x0_before = x0.copy()
+            kw['x0'] = x0
+            r.features.append('x0=%s' % case['x0'])
         m = maxent_dist(d, rvs, rv_mode='names' if case['byname'] else 'indices', **kw)
+        if x0 is not None and not (x0.shape == x0_before.shape and (x0 == x0_before).all()):
+            r.oracle_fail = 'maxent_dist changed the initial vector x0 it was given'
+            return
         if gen.obs_py(d, klass) != before:
             r.oracle_fail = 'maxent_dist changed its argument'
+            return
+        if names and list(m.get_rv_names() or []) != list(names):
+            # the result is a distribution of the source's variables: it is addressed by the same names, whatever the
+            # sample space of the source (Cartesian or expanded from a list / SampleSpace of members)
+            r.oracle_fail = ('the source has variable names %s, the result of maxent_dist has %s'
+                             % (list(names), m.get_rv_names()))
             return
         src = {tuple(o): float(Fraction(p)) for o, p in zip(case['outs'], case['pmf'])}
         got = {tuple(gen.from_py(o, klass)): gen.lin_of(v, m.get_base()) for o, v in zip(m.outcomes, m.pmf)}
@@ -233,7 +427,13 @@ class C14(object):
         if hm < hs - 1e-4:
             r.oracle_fail = 'entropy of the result %r is below the entropy of the source %r' % (hm, hs)
             return
-        alph = [sorted(set(o[i] for o in case['outs'])) for i in range(case['n'])]
+        alph = self.alph_of(case)
+        if unc and alph != self.prepared_alph(case):
+            # never generated: without a constraint on a variable, an explicit (non-Cartesian) sample space is expanded
+            # to the union alphabet and the statement does not say over which alphabet the variable is left uniform
+            r.features.append('unjudged: free variable on an expanded sample space')
+            r.nontrivial = False
+            return
         if unc:
             # a variable no constraint mentions: the result's own marginal on the constrained variables times the
             # uniform distribution on the alphabets of the others has the same requested marginals as the result
